@@ -14,14 +14,10 @@ def run(tier):
     tr = c01trace.run_traces(tier)
     viols += tr['violations']
     mine = [v for v in viols if v['property'] == 'C02' or v['kind'] == 'conformance']
-    extra = {}
-    try:
-        import props.c02blocks as c02blocks
-        ex = c02blocks.run_blocks(tier)
-        mine += ex['violations']
-        extra = ex['stats']
-    except ImportError:
-        pass
+    import props.c02blocks as c02blocks
+    ex = c02blocks.run_blocks(tier)
+    mine += [v for v in ex['violations'] if v['property'] == 'C02']
+    extra = ex['stats']
     cov = {
         'states': mc['states'], 'transitions': mc['transitions'],
         'traces_validated_against_impl': nb + tr['traces'],
